@@ -31,11 +31,11 @@ func init() {
 			"(b) retention: engines on pre-loaded stores of old events with small change-log windows and slow consumers: the delivered sequence must be a gap-free run of the complete history (recorded by the harness at every commit) and a stream that stops early must report ErrLostOplogPosition, never skip; " +
 			"(c) concurrent runs under the race detector: 1-3 writers x 1-3 consumers blocking in Next, random delays at the hooks stream.before_wait / commit.before_broadcast and directed holds (consumer parked between its change-log check and its wait until a commit passed the broadcast); after the writers joined every consumer must reach the expected sequence; a consumer that is parked with an undelivered matching event, no pending signal and no active writer is a lost wake-up; Close, context cancellation and engine Close must release a parked consumer; " +
 			"non-trivial = a stream delivered >=3 events and crossed a filtered foreign event or an invalidation; distinct = hash of history and stream configuration",
-		Assumptions: []string{"the complete history is read from the engine's change log after each commit (retention never hides an event committed by that very commit)", "stall verdicts are logical (parked + nothing pending + nothing to come); wall-clock waits are watchdogs whose firing alone is inconclusive"},
+		Assumptions: []string{"in the sequential histories the complete history is read from the change log after each commit (the minimum age of 5 minutes keeps every event of the committing transaction; the long-transaction scenario covers the opposite case)", "stall verdicts are logical (parked + nothing pending + nothing to come); wall-clock waits are watchdogs whose firing alone is inconclusive"},
 		Batches:     func(tier string) int { return 16 },
 		Parallel:    func(tier string) int { return 8 },
 		Require: func(tier string) map[string]int64 {
-			return map[string]int64{"streams": 500, "events_delivered": 5000, "events_filtered_out": 1000, "invalidations": 50, "resumed_streams": 25, "start_at_streams": 60, "retention_streams": 60, "lost_position_reported": 10, "late_resume_token_discarded": 40, "late_resume_token_retained": 40, "late_resume_rejected": 20,
+			return map[string]int64{"streams": 500, "events_delivered": 5000, "events_filtered_out": 1000, "invalidations": 50, "resumed_streams": 25, "start_at_streams": 60, "retention_streams": 60, "lost_position_reported": 10, "late_resume_token_discarded": 40, "late_resume_token_retained": 40, "late_resume_rejected": 20, "long_transactions": 8,
 				"concurrent_runs": 48, "concurrent_events_delivered": 2000, "parked_consumers_released": 60, "directed_wait_windows_hit": 10}
 		},
 		Run: runC09,
@@ -109,9 +109,89 @@ func (st *c09Stream) drain(ctx context.Context) {
 	}
 }
 
+// c09LongTransaction: a session transaction that stays open longer than the
+// minimum age writes more events than the change log may hold, so the clean-up
+// of its own commit discards events that were never published. A stream that
+// is behind them has not delivered them: it must fail with the lost-position
+// error, never continue silently with the remaining ones. (The clock is only
+// waited on: the transaction is committed once the wall-clock second has
+// advanced by two.)
+func c09LongTransaction(c *fw.Ctx) {
+	idx := 9100000 + c.Batch
+	if c.Skip(idx) {
+		return
+	}
+	r := c.Rand(idx)
+	k := r.Range(4, 8)
+	maxSize := r.Range(2, 3)
+	desc := map[string]interface{}{"inserts_in_transaction": k, "maxSize": maxSize, "minSize": 1, "minAge": "1ns"}
+	c.Case(idx, func() interface{} { return desc }, nil, func() {
+		c.Eval(1)
+		client, engine, err := lungo.Open(nil, lungo.Options{Store: lungo.NewMemoryStore(), ExpireInterval: 1 << 40, MinOplogSize: 1, MaxOplogSize: maxSize, MinOplogAge: time.Nanosecond, MaxOplogAge: time.Hour})
+		if err != nil {
+			c.Inconclusive("open: " + err.Error())
+			return
+		}
+		defer engine.Close()
+		ctx := context.Background()
+		coll := client.Database("d").Collection("c")
+		coll.InsertOne(ctx, bson.D{{Key: "_id", Value: int32(0)}})
+		head, err := coll.Watch(ctx, bson.A{})
+		if err != nil {
+			c.Inconclusive("watch: " + err.Error())
+			return
+		}
+		defer head.Close(ctx)
+		sess, _ := client.StartSession()
+		defer sess.EndSession(ctx)
+		if err := sess.StartTransaction(); err != nil {
+			c.Inconclusive("start: " + err.Error())
+			return
+		}
+		t0 := time.Now()
+		lungo.WithSession(ctx, sess, func(sc lungo.ISessionContext) error {
+			for i := 1; i <= k; i++ {
+				coll.InsertOne(sc, bson.D{{Key: "_id", Value: int32(i)}})
+			}
+			return nil
+		})
+		for time.Now().Unix() < t0.Unix()+2 {
+			time.Sleep(50 * time.Millisecond)
+		}
+		if err := sess.CommitTransaction(ctx); err != nil {
+			c.Violate("long-transaction:commit", "CommitTransaction failed: "+err.Error(), desc)
+			return
+		}
+		c.Count("long_transactions", 1)
+		kept := len(oplogEvents(engine.Catalog()))
+		var got []int32
+		for head.TryNext(ctx) {
+			var ev bson.D
+			head.Decode(&ev)
+			id, _ := ref.GetPath(ev, "documentKey._id").(int32)
+			got = append(got, id)
+		}
+		w := map[string]interface{}{"setup": desc, "delivered_ids": fmt.Sprint(got), "events_kept_by_the_commit": kept, "stream_error": fmt.Sprint(head.Err())}
+		for i, id := range got {
+			if id != int32(i+1) {
+				c.Violate("retention-stream:skipped-unpublished", fmt.Sprintf("a stream at the head of the log delivered the insert of _id %d as event %d of a transaction that inserted _id 1..%d: the events in between were discarded by the clean-up of that very commit and silently skipped (no lost-position error)", id, i+1, k), w)
+				return
+			}
+		}
+		if len(got) < k && !errors.Is(head.Err(), lungo.ErrLostOplogPosition) {
+			c.Violate("retention-stream:stopped-silently", fmt.Sprintf("a stream delivered %d of %d events and reports %v", len(got), k, head.Err()), w)
+			return
+		}
+		if len(got) < k {
+			c.Count("lost_position_reported", 1)
+		}
+	})
+}
+
 func runC09(c *fw.Ctx) {
 	c09Concurrent(c)
 	c09Retention(c)
+	c09LongTransaction(c)
 	nhist := c.N(320, 5600) / c.NBatches
 	for q := 0; q < nhist; q++ {
 		idx := c.Batch*nhist + q
